@@ -208,6 +208,36 @@ def run(ctx):
                     if generic != (i not in KNOWN):
                         ctx.violation('id %d decoded as %s' % (i, 'generic' if generic else 'known class'),
                                       {'id': i}, key={'kind': 'dispatch', 'id': i})
+        # ---- streams framed by an INDEPENDENT encoder with the vanilla server's rule (deflate when the
+        # packet is at least as long as the threshold; pyCraft's writer deflates strictly above it): a
+        # reader must take both.  Packets one byte below, exactly at and one byte above the threshold.
+        for thr in (1, 2, 8, 64, 256, 1000):
+            for sizes in ((thr - 1, thr, thr + 1), (thr,), (thr, thr, 0), (thr + 5, thr, thr - 1)):
+                pk = []
+                for sz in sizes:
+                    pid = rng.choice([0, 1, 0x21, 0x7f])
+                    pk.append((pid, bytes(rng.randrange(256) for _ in range(max(0, sz - len(refcodec.varint(pid)))))))
+                data = b''.join(refcodec.frame(refcodec.varint(i) + b, thr, ge=True) for i, b in pk)
+                for sname, segs in (('whole', [data]), ('bytewise', [data[i:i + 1] for i in range(len(data))])):
+                    stream = SegStream(segs)
+                    conn = types.SimpleNamespace(
+                        context=C.ConnectionContext(protocol_version=757),
+                        options=types.SimpleNamespace(compression_enabled=True, compression_threshold=thr))
+                    reactor = Reactor(conn)
+                    got, end = [], None
+                    for _ in range(len(pk) + 2):
+                        try:
+                            p = reactor.read_packet(stream, timeout=0)
+                        except BaseException as e:
+                            end = ename(e)
+                            break
+                        got.append((p.id, getattr(p, 'payload', None)))
+                    ctx.case(('vanilla-framed', thr, sizes, sname))
+                    if got != pk or end != 'eof':
+                        ctx.violation('frames written by an independent encoder (deflated when length >= threshold %d, packet lengths %r) '
+                                      'are not recovered: read %r, end=%s' % (thr, sizes, [(i, len(b)) for i, b in got], end),
+                                      {'threshold': thr, 'sizes': sizes, 'segmentation': sname},
+                                      key={'kind': 'vanilla-framed', 'threshold': thr, 'sizes': list(sizes)})
         mo = ctx.driver.ask(w_lines)
         for line, m, (got, pid, blen, thr) in zip(w_lines, mo, w_impl):
             ctx.case(('w', line), sample={'op': 'Packet.write', 'id': pid, 'payload_len': blen, 'threshold': thr})
